@@ -20,6 +20,7 @@ func init() {
 		gen:     toGen,
 		run:     toRun,
 		shard:   6,
+		procs:   6, // wall-clock margins: leave most cores idle
 	}
 	props["timeoutrace"] = prop{
 		configs: func(tier string) []map[string]string { return []map[string]string{{}} },
@@ -41,10 +42,10 @@ func toGen(r *Rng, i int, cfg int, tier string) []string {
 	if r.Chance(1, 5) {
 		flags += "N" // the callback returns at once, with another callback that is the slow one
 	}
-	d := []int{60, 90, 120}[r.Intn(3)]
+	d := []int{150, 200, 260}[r.Intn(3)]
 	d2 := "-"
 	if r.Chance(1, 3) {
-		d2 = strconv.Itoa([]int{60, 120, 200}[r.Intn(3)])
+		d2 = strconv.Itoa([]int{150, 260, 400}[r.Intn(3)])
 	}
 	cf := []string{flags}
 	n := 1 + r.Intn(3)
@@ -54,18 +55,18 @@ func toGen(r *Rng, i int, cfg int, tier string) []string {
 		case 0:
 			ta = 0
 		case 1:
-			ta = d - 55
+			ta = d - 110
 			if ta < 0 {
 				ta = 0
 			}
 		case 2:
-			ta = d + 60
+			ta = d + 90
 		case 3:
 			ta = -1 // never returns
 		case 4:
-			ta = d + 150
+			ta = d + 220
 		default:
-			ta = d / 3
+			ta = d / 4
 		}
 		cf = append(cf, strconv.Itoa(d), d2, strconv.Itoa(ta))
 	}
@@ -78,6 +79,7 @@ func toRun(cf []string) []string {
 	steps := cf[1:]
 	d, d2 := atoi(steps[0]), steps[1]
 	var current atomic.Int64 // duration of the wrapped action for the invocation under way
+	var startedAt, doneAfter atomic.Int64 // when the invocation started (ns), after how many ms the wrapped action really finished (-1: not yet)
 	release := make(chan struct{})
 	released := false
 	unblock := func() {
@@ -94,6 +96,7 @@ func toRun(cf []string) []string {
 		} else {
 			time.Sleep(time.Duration(ta) * time.Millisecond)
 		}
+		doneAfter.Store((time.Now().UnixNano() - startedAt.Load()) / 1e6)
 		return carapace.ActionValuesDescribed("inner", "inner description").NoSpace('/').Usage("inner usage")
 	})
 	a := inner
@@ -116,6 +119,8 @@ func toRun(cf []string) []string {
 		current.Store(int64(atoi(steps[2])))
 		steps = steps[3:]
 		t0 := time.Now()
+		startedAt.Store(t0.UnixNano())
+		doneAfter.Store(-1)
 		type res struct {
 			meta common.Meta
 			vals common.RawValues
@@ -150,8 +155,9 @@ func toRun(cf []string) []string {
 				}
 			}
 		}
-		out = append(out, got, strconv.FormatInt(el, 10))
 		time.Sleep(20 * time.Millisecond) // let an abandoned worker of a boundary case settle
+		// el: when the answer came; after it: when the wrapped action really finished on this (possibly loaded) machine
+		out = append(out, got, strconv.FormatInt(el, 10)+"/"+strconv.FormatInt(doneAfter.Load(), 10))
 	}
 	return out
 }
